@@ -1,4 +1,5 @@
 import PGM.Driver.C07
+import PGM.Driver.C05
 /-!
 Line-protocol driver: one JSON request per input line, one JSON response per output line.
 Run with the compiled `pgmgen` (handlers over the py2lean-generated definitions only).
@@ -11,6 +12,7 @@ def dispatch (req : Json) : Except String Json := do
   | "cdp" => handleCdp req
   | "em" => handleEM req
   | "scale" => handleScale req
+  | "ada_query" => handleAdaQuery req
   | _ => throw s!"unknown op {op}"
 
 def respond (line : String) : String :=
